@@ -1,10 +1,10 @@
 /-
-  C03_nopanic (partial): under the token-shape contract (attributes and `>` / `/>` only inside a
-  start tag) and with no end tag at depth 0, `build` never reaches an `unwrap` / `expect`.
+  C03_nopanic: under the token-shape contract (attributes and `>` / `/>` only inside a start
+  tag) `build` never reaches an `unwrap` / `expect`.
 
-  Invariant: `element_builder` is `Some` exactly inside a start tag; the number of open frames
-  is the tokenizer depth; every open element frame and every element / text child of the
-  document node has its span recorded (the epilogues `unwrap` those).
+  Invariant: `element_builder` is `Some` exactly inside a start tag; every open element frame
+  and every element / text child of the document node has its span recorded (the epilogues
+  `unwrap` those).
 -/
 import XotModel.Model.Parse
 import XotModel.Model.TokenShape
@@ -93,14 +93,13 @@ theorem TopSpans.mono {m m' : SpanMap} (h : KeysSub m m') : ∀ {l : List Tree},
   | [], _ => trivial
   | _ :: _, ⟨a, b, c⟩ => ⟨fun x => h _ (a x), fun x => h _ (b x), TopSpans.mono h c⟩
 
-structure NoPanicInv (b : Builder) (inTag : Bool) (depth : Nat) : Prop where
+structure NoPanicInv (b : Builder) (inTag : Bool) : Prop where
   eb : b.eb.isSome = inTag
-  depth : b.parents.length = depth
   opens : OpenSpans b.spans b.parents
   top : TopSpans b.spans (bottomRkids b.cur b.parents)
 
-theorem noPanicInv_new (env : Env) : NoPanicInv (Builder.new env) false 0 :=
-  ⟨rfl, rfl, trivial, trivial⟩
+theorem noPanicInv_new (env : Env) : NoPanicInv (Builder.new env) false :=
+  ⟨rfl, trivial, trivial⟩
 
 theorem curPath_eq (b : Builder) : b.curPath = framesPath b.parents := rfl
 
@@ -108,19 +107,27 @@ theorem curPath_eq (b : Builder) : b.curPath = framesPath b.parents := rfl
 
 /-- What a step must deliver: no panic, and the invariant for the state the tokenizer is in
     afterwards. -/
-def StepNP (inTag : Bool) (depth : Nat) : Step Builder → Prop
-  | .ok b' => NoPanicInv b' inTag depth
+def StepNP (inTag : Bool) : Step Builder → Prop
+  | .ok b' => NoPanicInv b' inTag
   | .err _ _ => True
   | .panic => False
 
-theorem prefix_np {b : Builder} {d : Nat} (h : NoPanicInv b true d) (p u : Str) : StepNP true d (b.prefix p u) := by
+theorem prefix_np {b : Builder} (h : NoPanicInv b true) (p : Str) (u : StrSpan) (sp : Span) :
+    StepNP true (b.prefix p u sp) := by
   unfold Builder.prefix
-  cases he : b.eb with
-  | none => have := h.eb; rw [he] at this; cases this
-  | some eb => exact ⟨rfl, h.depth, h.opens, h.top⟩
+  split
+  · trivial
+  · dsimp only
+    cases he : b.eb with
+    | none => have := h.eb; rw [he] at this; cases this
+    | some eb =>
+      simp only
+      split
+      · trivial
+      · exact ⟨rfl, h.opens, h.top⟩
 
-theorem attribute_np {b : Builder} {d : Nat} (h : NoPanicInv b true d) (p l v : StrSpan) :
-    StepNP true d (b.attribute p l v) := by
+theorem attribute_np {b : Builder} (h : NoPanicInv b true) (p l v : StrSpan) :
+    StepNP true (b.attribute p l v) := by
   unfold Builder.attribute
   cases he : b.eb with
   | none => have := h.eb; rw [he] at this; cases this
@@ -130,7 +137,7 @@ theorem attribute_np {b : Builder} {d : Nat} (h : NoPanicInv b true d) (p l v : 
     · trivial
     · split
       · trivial
-      · exact ⟨rfl, h.depth, h.opens, h.top⟩
+      · exact ⟨rfl, h.opens, h.top⟩
 
 theorem addAttributes_np (stack : NsStack) (node : Path) (abs : List AttributeBuilder) :
     ∀ st : AttrLoop, addAttributes stack node st abs ≠ .panic := by
@@ -153,7 +160,9 @@ theorem addAttributes_np (stack : NsStack) (node : Path) (abs : List AttributeBu
       simp only at h
       split at h
       · cases h
-      · exact ih _ h
+      · split at h
+        · cases h
+        · exact ih _ h
 
 theorem elementNameId_np (env : Env) (stack : NsStack) (p n : Str) (sp : Span) :
     elementNameId env stack p n sp ≠ .panic := by
@@ -161,7 +170,7 @@ theorem elementNameId_np (env : Env) (stack : NsStack) (p n : Str) (sp : Span) :
   dsimp only
   split <;> simp
 
-theorem openElement_np {b : Builder} {d : Nat} (h : NoPanicInv b true d) : StepNP false (d + 1) b.openElement := by
+theorem openElement_np {b : Builder} (h : NoPanicInv b true) : StepNP false b.openElement := by
   unfold Builder.openElement
   cases he : b.eb with
   | none => have := h.eb; rw [he] at this; cases this
@@ -174,7 +183,7 @@ theorem openElement_np {b : Builder} {d : Nat} (h : NoPanicInv b true d) : StepN
       obtain ⟨env1, nameId⟩ := r
       simp only
       cases ha : addAttributes (eb.namespaces :: b.nsStack) (b.curPath ++ [b.cur.rkids.length])
-          { env := env1, seenIds := b.seenIds, idNodes := b.idNodes, rkids := namespaceKids eb.namespaces, aspans := [] }
+          { env := env1, seenIds := b.seenIds, idNodes := b.idNodes, seenNames := [], rkids := namespaceKids eb.namespaces, aspans := [] }
           eb.attributes with
       | panic => exact absurd ha (addAttributes_np _ _ _ _)
       | err e env => trivial
@@ -184,7 +193,7 @@ theorem openElement_np {b : Builder} {d : Nat} (h : NoPanicInv b true d) : StepN
             ((b.spans.add ⟨b.curPath ++ [b.cur.rkids.length], .elementStart⟩ eb.span).addAttributeSpans
               (b.curPath ++ [b.cur.rkids.length]) st.aspans) :=
           (keysSub_add _ _ _).trans (keysSub_addAttributeSpans _ _ _)
-        refine ⟨rfl, by simp [h.depth], ⟨?_, h.opens.mono hsub⟩, ?_⟩
+        refine ⟨rfl, ⟨?_, h.opens.mono hsub⟩, ?_⟩
         · apply keysSub_addAttributeSpans
           have : framesPath (b.cur :: b.parents) = b.curPath ++ [b.cur.rkids.length] := by
             simp [framesPath, Builder.curPath]
@@ -193,19 +202,18 @@ theorem openElement_np {b : Builder} {d : Nat} (h : NoPanicInv b true d) : StepN
         · simp only [bottomRkids]
           exact h.top.mono hsub
 
-theorem leave_np {b : Builder} {d : Nat} (h : NoPanicInv b false (d + 1)) (hshape : ShapeOk (b.cur :: b.parents))
-    (sp : StrSpan) : StepNP false d (b.leave b.curPath sp) := by
+theorem leave_np {b : Builder} (h : NoPanicInv b false) (hne : b.parents ≠ [])
+    (hshape : ShapeOk (b.cur :: b.parents)) (sp : StrSpan) : StepNP false (b.leave b.curPath sp) := by
   unfold Builder.leave Builder.toParent
   cases hpar : b.parents with
-  | nil => have := h.depth; rw [hpar] at this; cases this
+  | nil => exact absurd hpar hne
   | cons p rest =>
     simp only
-    have hd := h.depth
     have ho := h.opens
     have ht := h.top
-    rw [hpar] at hd ho ht hshape
+    rw [hpar] at ho ht hshape
     have hsub := keysSub_add b.spans ⟨b.curPath, .elementEnd⟩ sp.span
-    refine ⟨h.eb, by simpa using hd, ho.2.mono hsub, ?_⟩
+    refine ⟨h.eb, ho.2.mono hsub, ?_⟩
     simp only [bottomRkids] at ht ⊢
     cases rest with
     | nil =>
@@ -223,14 +231,14 @@ theorem leave_np {b : Builder} {d : Nat} (h : NoPanicInv b false (d + 1)) (hshap
       simp only [bottomRkids] at ht ⊢
       exact ht.mono hsub
 
-theorem addText_np {b : Builder} {d : Nat} (h : NoPanicInv b false d) (content : Str) (sp : Span) :
-    NoPanicInv { (b.addText content).1 with spans := (b.addText content).1.spans.extendText (b.addText content).2 sp } false d := by
+theorem addText_np {b : Builder} (h : NoPanicInv b false) (content : Str) (sp : Span) :
+    NoPanicInv { (b.addText content).1 with spans := (b.addText content).1.spans.extendText (b.addText content).2 sp } false := by
   unfold Builder.addText
   split
   · rename_i s ks more hr
     simp only
     have hsub := keysSub_extendText b.spans (b.curPath ++ [more.length]) sp
-    refine ⟨h.eb, h.depth, h.opens.mono hsub, ?_⟩
+    refine ⟨h.eb, h.opens.mono hsub, ?_⟩
     cases hpar : b.parents with
     | nil =>
       have ht := h.top
@@ -248,7 +256,7 @@ theorem addText_np {b : Builder} {d : Nat} (h : NoPanicInv b false d) (content :
       exact ht.mono hsub
   · simp only
     have hsub := keysSub_extendText b.spans (b.curPath ++ [b.cur.rkids.length]) sp
-    refine ⟨h.eb, h.depth, h.opens.mono hsub, ?_⟩
+    refine ⟨h.eb, h.opens.mono hsub, ?_⟩
     cases hpar : b.parents with
     | nil =>
       have ht := h.top
@@ -265,12 +273,12 @@ theorem addText_np {b : Builder} {d : Nat} (h : NoPanicInv b false d) (content :
       exact ht.mono hsub
 
 /-- Adding a comment / PI leaf and any further spans. -/
-theorem addLeaf_np {b : Builder} {d : Nat} (h : NoPanicInv b false d) (v : Value) (m' : SpanMap)
+theorem addLeaf_np {b : Builder} (h : NoPanicInv b false) (v : Value) (m' : SpanMap)
     (hv1 : v.isElement = false) (hv2 : v.isText = false) (hsub : KeysSub b.spans m') :
-    NoPanicInv { (b.addLeaf v).1 with spans := m' } false d := by
+    NoPanicInv { (b.addLeaf v).1 with spans := m' } false := by
   unfold Builder.addLeaf
   simp only
-  refine ⟨h.eb, h.depth, h.opens.mono hsub, ?_⟩
+  refine ⟨h.eb, h.opens.mono hsub, ?_⟩
   cases hpar : b.parents with
   | nil =>
     have ht := h.top
@@ -285,32 +293,35 @@ theorem addLeaf_np {b : Builder} {d : Nat} (h : NoPanicInv b false d) (v : Value
 
 /-- The token loop never panics under the contract, and ends in a state satisfying the invariant. -/
 theorem run_np (lexErr : Option Nat) (ts : List Token) :
-    ∀ (b : Builder) (inTag : Bool) (d : Nat), BuilderOk b → NoPanicInv b inTag d →
-      TagsOk inTag ts → NoStrayClose d ts →
+    ∀ (b : Builder) (inTag : Bool), BuilderOk b → NoPanicInv b inTag → TagsOk inTag ts →
       match b.run ts lexErr with
-      | .ok b' => ∃ inTag' d', NoPanicInv b' inTag' d'
+      | .ok b' => ∃ inTag', NoPanicInv b' inTag'
       | .err _ _ => True
       | .panic => False := by
   induction ts with
   | nil =>
-    intro b inTag d _ h _ _
+    intro b inTag _ h _
     cases lexErr with
-    | none => exact ⟨inTag, d, h⟩
+    | none =>
+      simp only [Builder.run]
+      cases b.eb with
+      | some eb => trivial
+      | none => exact ⟨inTag, h⟩
     | some p => trivial
   | cons t ts ih =>
-    intro b inTag d hok h htags hdepth
+    intro b inTag hok h htags
     simp only [Builder.run]
     -- one step, then the induction hypothesis
-    have key : ∀ inTag' d', StepNP inTag' d' (b.step t) → TagsOk inTag' ts → NoStrayClose d' ts →
+    have key : ∀ inTag', StepNP inTag' (b.step t) → TagsOk inTag' ts →
         match (match b.step t with | .ok b1 => Builder.run b1 ts lexErr | r => r) with
-        | .ok b' => ∃ inTag' d', NoPanicInv b' inTag' d'
+        | .ok b' => ∃ inTag', NoPanicInv b' inTag'
         | .err _ _ => True
         | .panic => False := by
-      intro inTag' d' hs ht hd
+      intro inTag' hs ht
       cases hb : b.step t with
       | ok b1 =>
         rw [hb] at hs
-        exact ih b1 inTag' d' (step_ok t hok hb) hs ht hd
+        exact ih b1 inTag' (step_ok t hok hb) hs ht
       | err e env => trivial
       | panic => rw [hb] at hs; exact hs
     cases t with
@@ -318,32 +329,30 @@ theorem run_np (lexErr : Option Nat) (ts : List Token) :
       cases inTag with
       | false => simp [TagsOk] at htags
       | true =>
-        refine key true d ?_ (by simpa [TagsOk] using htags) (by simpa [NoStrayClose] using hdepth)
+        refine key true ?_ (by simpa [TagsOk] using htags)
         simp only [Builder.step]
         split
-        · exact prefix_np h _ _
+        · exact prefix_np h _ _ _
         · split
-          · exact prefix_np h _ _
+          · exact prefix_np h _ _ _
           · exact attribute_np h _ _ _
     | elementStart p l sp =>
       cases inTag with
       | true => simp [TagsOk] at htags
       | false =>
-        refine key true d ?_ (by simpa [TagsOk] using htags) (by simpa [NoStrayClose] using hdepth)
-        exact ⟨rfl, h.depth, h.opens, h.top⟩
+        refine key true ?_ (by simpa [TagsOk] using htags)
+        exact ⟨rfl, h.opens, h.top⟩
     | elementEnd e sp =>
       cases e with
       | «open» =>
         cases inTag with
         | false => simp [TagsOk] at htags
-        | true =>
-          exact key false (d + 1) (openElement_np h) (by simpa [TagsOk] using htags)
-            (by simpa [NoStrayClose] using hdepth)
+        | true => exact key false (openElement_np h) (by simpa [TagsOk] using htags)
       | empty =>
         cases inTag with
         | false => simp [TagsOk] at htags
         | true =>
-          refine key false d ?_ (by simpa [TagsOk] using htags) (by simpa [NoStrayClose] using hdepth)
+          refine key false ?_ (by simpa [TagsOk] using htags)
           simp only [Builder.step]
           have ho := openElement_np h
           cases hb : b.openElement with
@@ -353,39 +362,58 @@ theorem run_np (lexErr : Option Nat) (ts : List Token) :
             rw [hb] at ho
             simp only
             have hok1 := openElement_ok hok hb
+            have hne : b1.parents ≠ [] := by
+              have hs := hok1.2.2.1
+              intro hnil
+              rw [hnil] at hs
+              simp only [ShapeOk] at hs
+              -- the frame just opened is an element, not the document node
+              unfold Builder.openElement at hb
+              split at hb
+              · cases hb
+              · dsimp only at hb
+                split at hb
+                · cases hb
+                · cases hb
+                · split at hb
+                  · cases hb
+                  · cases hb
+                  · simp only [Step.ok.injEq] at hb
+                    subst hb
+                    simp at hnil
             unfold Builder.closeImmediate
-            have hcp : ∀ x : Builder, x.cur = b1.cur → x.parents = b1.parents → x.curPath = b1.curPath := by
-              intro x _ hp; simp [Builder.curPath, hp]
             split
-            · exact leave_np (b := { b1 with nsStack := b1.nsStack.tail }) ⟨ho.eb, ho.depth, ho.opens, ho.top⟩ hok1.2.2 sp
-            · exact leave_np ho hok1.2.2 sp
+            · exact leave_np (b := { b1 with nsStack := b1.nsStack.tail }) ⟨ho.eb, ho.opens, ho.top⟩ hne hok1.2.2.1 sp
+            · exact leave_np ho hne hok1.2.2.1 sp
       | close p l =>
         cases inTag with
         | true => simp [TagsOk] at htags
         | false =>
-          cases d with
-          | zero => simp [NoStrayClose] at hdepth
-          | succ d =>
-            refine key false d ?_ (by simpa [TagsOk] using htags) (by simpa [NoStrayClose] using hdepth)
-            simp only [Builder.step]
-            unfold Builder.closeElement
-            cases hn : elementNameId b.env b.nsStack p.text l.text p.span with
-            | panic => exact absurd hn (elementNameId_np _ _ _ _ _)
-            | err e env => trivial
-            | ok r =>
-              obtain ⟨env1, nameId⟩ := r
-              simp only
+          refine key false ?_ (by simpa [TagsOk] using htags)
+          simp only [Builder.step]
+          unfold Builder.closeElement
+          cases hn : elementNameId b.env b.nsStack p.text l.text p.span with
+          | panic => exact absurd hn (elementNameId_np _ _ _ _ _)
+          | err e env => trivial
+          | ok r =>
+            obtain ⟨env1, nameId⟩ := r
+            simp only
+            split
+            · trivial
+            · rename_i hpe
+              have hne : b.parents ≠ [] := by
+                intro hnil; rw [hnil] at hpe; simp at hpe
               split
               · split
                 · trivial
                 · exact leave_np (b := { b with env := env1, nsStack := b.nsStack.tail })
-                    ⟨h.eb, h.depth, h.opens, h.top⟩ hok.2.2 sp
-              · exact leave_np (b := { b with env := env1 }) ⟨h.eb, h.depth, h.opens, h.top⟩ hok.2.2 sp
+                    ⟨h.eb, h.opens, h.top⟩ hne hok.2.2.1 sp
+              · exact leave_np (b := { b with env := env1 }) ⟨h.eb, h.opens, h.top⟩ hne hok.2.2.1 sp
     | text t =>
       cases inTag with
       | true => simp [TagsOk] at htags
       | false =>
-        refine key false d ?_ (by simpa [TagsOk] using htags) (by simpa [NoStrayClose] using hdepth)
+        refine key false ?_ (by simpa [TagsOk] using htags)
         simp only [Builder.step, Builder.text]
         split
         · trivial
@@ -394,24 +422,26 @@ theorem run_np (lexErr : Option Nat) (ts : List Token) :
       cases inTag with
       | true => simp [TagsOk] at htags
       | false =>
-        refine key false d ?_ (by simpa [TagsOk] using htags) (by simpa [NoStrayClose] using hdepth)
+        refine key false ?_ (by simpa [TagsOk] using htags)
         simp only [Builder.step, Builder.cdata]
-        exact addText_np h _ _
+        split
+        · exact h
+        · exact addText_np h _ _
     | comment t sp =>
       cases inTag with
       | true => simp [TagsOk] at htags
       | false =>
-        refine key false d ?_ (by simpa [TagsOk] using htags) (by simpa [NoStrayClose] using hdepth)
+        refine key false ?_ (by simpa [TagsOk] using htags)
         simp only [Builder.step, Builder.comment]
         exact addLeaf_np h (.comment t.text) _ rfl rfl (keysSub_add _ _ _)
     | pi target content sp =>
       cases inTag with
       | true => simp [TagsOk] at htags
       | false =>
-        refine key false d ?_ (by simpa [TagsOk] using htags) (by simpa [NoStrayClose] using hdepth)
+        refine key false ?_ (by simpa [TagsOk] using htags)
         simp only [Builder.step, Builder.processingInstruction]
         refine addLeaf_np (b := { b with env := (b.env.internName target.text Env.noNamespace).1 })
-          ⟨h.eb, h.depth, h.opens, h.top⟩ _ _ rfl rfl ?_
+          ⟨h.eb, h.opens, h.top⟩ _ _ rfl rfl ?_
         cases content with
         | none => exact keysSub_add _ _ _
         | some c => exact (keysSub_add _ _ _).trans (keysSub_add _ _ _)
@@ -419,7 +449,7 @@ theorem run_np (lexErr : Option Nat) (ts : List Token) :
       cases inTag with
       | true => simp [TagsOk] at htags
       | false =>
-        refine key false d ?_ (by simpa [TagsOk] using htags) (by simpa [NoStrayClose] using hdepth)
+        refine key false ?_ (by simpa [TagsOk] using htags)
         simp only [Builder.step]
         split
         · trivial
@@ -427,19 +457,19 @@ theorem run_np (lexErr : Option Nat) (ts : List Token) :
     | dtdStart sp =>
       cases inTag with
       | true => simp [TagsOk] at htags
-      | false => exact key false d trivial (by simpa [TagsOk] using htags) (by simpa [NoStrayClose] using hdepth)
+      | false => exact key false trivial (by simpa [TagsOk] using htags)
     | dtdEnd sp =>
       cases inTag with
       | true => simp [TagsOk] at htags
-      | false => exact key false d trivial (by simpa [TagsOk] using htags) (by simpa [NoStrayClose] using hdepth)
+      | false => exact key false trivial (by simpa [TagsOk] using htags)
     | emptyDtd sp =>
       cases inTag with
       | true => simp [TagsOk] at htags
-      | false => exact key false d trivial (by simpa [TagsOk] using htags) (by simpa [NoStrayClose] using hdepth)
+      | false => exact key false trivial (by simpa [TagsOk] using htags)
     | entityDecl sp =>
       cases inTag with
       | true => simp [TagsOk] at htags
-      | false => exact key false d trivial (by simpa [TagsOk] using htags) (by simpa [NoStrayClose] using hdepth)
+      | false => exact key false trivial (by simpa [TagsOk] using htags)
 
 /-! ### Epilogues -/
 
@@ -509,12 +539,12 @@ theorem scan_np (m : SpanMap) : ∀ (ks : List Tree) (i : Nat) (elems : List Nat
     | «attribute» n v => exact ih (i + 1) _ c he
     | «namespace» p n => exact ih (i + 1) _ c he
 
-theorem unclosed_np {b : Builder} {inTag : Bool} {d : Nat} (hok : BuilderOk b) (h : NoPanicInv b inTag d)
+theorem unclosed_np {b : Builder} {inTag : Bool} (hok : BuilderOk b) (h : NoPanicInv b inTag)
     (hcur : b.isCurrentDocument = false) : b.unclosed ≠ .panic := by
   unfold Builder.unclosed
   cases hpar : b.parents with
   | nil =>
-    have hs := hok.2.2
+    have hs := hok.2.2.1
     rw [hpar] at hs
     simp only [ShapeOk] at hs
     simp [Builder.isCurrentDocument, hs, Value.isDocument] at hcur
@@ -529,8 +559,8 @@ theorem unclosed_np {b : Builder} {inTag : Bool} {d : Nat} (hok : BuilderOk b) (
     | none => rw [hg] at hk; cases hk
     | some sp => simp
 
-theorem finishDocument_np {b : Builder} {inTag : Bool} {d : Nat} (len : Nat) (hok : BuilderOk b)
-    (h : NoPanicInv b inTag d) : b.finishDocument len ≠ .panic := by
+theorem finishDocument_np {b : Builder} {inTag : Bool} (len : Nat) (hok : BuilderOk b)
+    (h : NoPanicInv b inTag) : b.finishDocument len ≠ .panic := by
   unfold Builder.finishDocument
   split
   · rename_i hdoc
@@ -538,7 +568,7 @@ theorem finishDocument_np {b : Builder} {inTag : Bool} {d : Nat} (len : Nat) (ho
       cases hp : b.parents with
       | nil => rfl
       | cons p rest =>
-        have hs := hok.2.2
+        have hs := hok.2.2.1
         rw [hp] at hs
         simp only [ShapeOk] at hs
         have := hs.1
@@ -570,25 +600,25 @@ theorem finishDocument_np {b : Builder} {inTag : Bool} {d : Nat} (len : Nat) (ho
   · rename_i hdoc
     exact unclosed_np hok h (by simpa using hdoc)
 
-theorem finishFragment_np {b : Builder} {inTag : Bool} {d : Nat} (hok : BuilderOk b)
-    (h : NoPanicInv b inTag d) : b.finishFragment ≠ .panic := by
+theorem finishFragment_np {b : Builder} {inTag : Bool} (hok : BuilderOk b)
+    (h : NoPanicInv b inTag) : b.finishFragment ≠ .panic := by
   unfold Builder.finishFragment
   split
   · simp
   · rename_i hdoc
     exact unclosed_np hok h (by simpa using hdoc)
 
-/-- C03_nopanic, partial: attributes / tag ends only inside start tags, no end tag at depth 0. -/
+/-- C03_nopanic: attributes / tag ends only inside start tags. -/
 theorem build_np (m : Mode) (len : Nat) (env : Env) (ts : List Token) (lexErr : Option Nat)
-    (htags : TagsOk false ts) (hclose : NoStrayClose 0 ts) : build m len env ts lexErr ≠ .panic := by
+    (htags : TagsOk false ts) : build m len env ts lexErr ≠ .panic := by
   unfold build
-  have hr := run_np lexErr ts (Builder.new env) false 0 (builderOk_new env) (noPanicInv_new env) htags hclose
+  have hr := run_np lexErr ts (Builder.new env) false (builderOk_new env) (noPanicInv_new env) htags
   cases hb : (Builder.new env).run ts lexErr with
   | panic => rw [hb] at hr; exact hr.elim
   | err e env' => simp
   | ok b =>
     rw [hb] at hr
-    obtain ⟨inTag, d, hinv⟩ := hr
+    obtain ⟨inTag, hinv⟩ := hr
     have hok := run_ok ts lexErr (builderOk_new env) hb
     cases m with
     | document => exact finishDocument_np len hok hinv
